@@ -599,6 +599,10 @@ func drillIntoField(cursor any, fieldName string) (any, error) {
 		return elementValue.Interface(), nil
 
 	case reflect.Slice:
+		if len(fieldName) > 1 && fieldName[0] == '0' {
+			// RFC 6901: an array index is "0" or digits without a leading "0"
+			return nil, fmt.Errorf("%q is not an array index", fieldName)
+		}
 		i, err := strconv.ParseUint(fieldName, 10, 32)
 		if err != nil {
 			return nil, err
